@@ -51,10 +51,21 @@ def main():
         os.makedirs(os.path.join(wt, '_seed', 'x'))
         for f in ('patch.diff', 'demo.py'):
             shutil.copy(os.path.join(seed_dir, f), os.path.join(wt, '_seed', 'x', f))
+        # a change whose lines were later touched by a fix in /repo carries a hand-merged version for the newer tree
+        head = subprocess.run(['git', '-C', '/repo', 'rev-parse', '--short', 'HEAD'], capture_output=True, text=True).stdout.strip()
+        for f in sorted(os.listdir(seed_dir)):
+            if f.startswith('patch_on_') and f.endswith('.diff'):
+                if subprocess.run(['git', '-C', '/repo', 'merge-base', '--is-ancestor', f[len('patch_on_'):-5], 'HEAD']).returncode == 0:
+                    shutil.copy(os.path.join(seed_dir, f), os.path.join(wt, '_seed', 'x', 'patch.diff'))
         env = dict(os.environ, PYTHONDONTWRITEBYTECODE='1', MPLBACKEND='Agg')
         c0, out0 = sh([PY, '_seed/x/demo.py'], wt, env)
         res['demo_clean_exit'] = c0
         ca, outa = sh(['git', 'apply', '_seed/x/patch.diff'], wt)
+        if ca != 0:
+            # written against an earlier commit of /repo (before a later fix touched the same lines): a three-way
+            # merge of the change onto the current tree
+            ca, outa = sh(['git', 'apply', '--3way', '_seed/x/patch.diff'], wt)
+            res['patch_applied_three_way'] = ca == 0
         res['patch_applies'] = ca == 0
         if ca != 0:
             print('patch does not apply:', outa[-500:])
